@@ -8,6 +8,8 @@ import (
 	"context"
 	"log/slog"
 
+	"github.com/pkg/errors"
+
 	"github.com/oxia-db/oxia/proto"
 	"github.com/oxia-db/oxia/server/kv"
 	"github.com/oxia-db/oxia/server/wal"
@@ -88,7 +90,13 @@ func verifDumpStorage(d *VerifNodeDump, w wal.Wal, db kv.DB, keys []string) erro
 // VerifDump projects the state of the controller the director currently holds for the shard.
 // It is meant to be called at quiescent points; fields of a controller whose lock is held by a
 // long-running handler (BecomeLeader waiting for the quorum) are read without the lock.
-func VerifDump(director ShardsDirector, shard int64, keys []string) (*VerifNodeDump, error) {
+func VerifDump(director ShardsDirector, shard int64, keys []string) (dump *VerifNodeDump, err error) {
+	defer func() {
+		// the storage may be closed or replaced (snapshot install) while a handler holds the controller lock
+		if r := recover(); r != nil {
+			dump, err = nil, errors.Errorf("node is in transition: %v", r)
+		}
+	}()
 	s := director.(*shardsDirector)
 	s.RLock()
 	defer s.RUnlock()
